@@ -79,6 +79,28 @@ class HotspotStrategy(Strategy):
         return self.rng.choice(others) if others else current
 
 
+class StallStrategy(RandomStrategy):
+    """RandomStrategy that additionally, at LINE yield points of the files named in `files` (basename match), lets the
+    running thread sleep for a virtual duration with probability p_stall (at most max_stalls times per run): models a
+    thread that is descheduled while time passes, which pure reordering on a frozen clock cannot produce."""
+
+    def __init__(self, rng: Any, p: float, files: tuple, durations: tuple, est: int = 40, max_stalls: int = 2) -> None:
+        super().__init__(rng, p)
+        self.files, self.durations = files, durations
+        # stall positions are drawn uniformly over the eligible yield points of a run (est = how many the previous run had),
+        # so that late points (the k-th tick) are as likely as the first lines of schedule_periodic
+        self.targets = {rng.randrange(max(1, est)) for _ in range(rng.randint(1, max_stalls))}
+        self.n = 0
+
+    def stall(self, ctl: "Ctl", name: str, where: Any) -> float:
+        if not isinstance(where, tuple) or where[0] not in self.files:
+            return 0.0
+        self.n += 1
+        if (self.n - 1) in self.targets:
+            return self.rng.choice(self.durations)
+        return 0.0
+
+
 class PCTStrategy(Strategy):
     """PCT: random priorities, d-1 priority change points among the first `est` decisions"""
 
@@ -123,6 +145,14 @@ class ReplayStrategy(Strategy):
     def __init__(self, decisions: list[str]) -> None:
         self.decisions = decisions
         self.mismatch = False
+
+    def stall(self, ctl: "Ctl", name: str, where: Any) -> float:
+        i = len(ctl.decisions)
+        if i < len(self.decisions) and self.decisions[i].startswith("~"):
+            dt, th, site = self.decisions[i][1:].split("@")
+            if th == name and site == "%s:%d#%d" % (where[0], where[1], ctl.where_count.get((name, where), 0)):
+                return float(dt)
+        return 0.0
 
     def choose(self, ctl: "Ctl", cands: list[str], current: str | None) -> str:
         i = len(ctl.decisions)
@@ -171,6 +201,11 @@ class Ctl:
         self.clock_advances = 0
         self.quiescence_waiter: Rec | None = None
         self.cur_where: Any = None
+        self.stalls = 0
+        self.stall_sites: list = []
+        self.where_count: dict = {}
+        self.watch_lines: Any = ()          # (basename, line) yield points whose visits a scenario wants recorded, per thread
+        self.watch_log: list = []           # (len(events), thread, "visit"|"stall"|"wait", where) in execution order
         self.running: Rec | None = None      # the thread that holds the baton
 
     # ---- thread records
@@ -269,6 +304,24 @@ class Ctl:
         if self.steps > self.max_steps:
             self.failed = self.failed or "step budget exceeded"
             raise StepBudget()
+        stall = getattr(self.strategy, "stall", None)
+        if stall is not None and isinstance(where, tuple):
+            key = (r.name, where)
+            self.where_count[key] = self.where_count.get(key, 0) + 1
+            dt = stall(self, r.name, where)
+            if dt:
+                # the OS may deschedule a thread for an arbitrary stretch of time: let virtual time pass here
+                self.stalls += 1
+                self.stall_sites.append(where)
+                self.watch_log.append((len(self.events), r.name, "stall", where))
+                # recorded like a scheduling decision so that replays repeat it: ~<dt>@<thread>@<file>:<line>#<k-th visit>
+                self.decisions.append("~%r@%s@%s:%d#%d" % (dt, r.name, where[0], where[1], self.where_count[key]))
+                self.block(lambda: False, dt, "stall")
+                if where in self.watch_lines:
+                    self.watch_log.append((len(self.events), r.name, "visit", where))
+                return
+        if self.watch_lines and where in self.watch_lines:
+            self.watch_log.append((len(self.events), r.name, "visit", where))
         nxt = self._decide(r, True, where)
         if nxt is not None:
             self._switch_to(nxt, r)
@@ -285,6 +338,8 @@ class Ctl:
         if pred():
             return True
         r.wait, r.what, r.timed_out = pred, what, False
+        if self.watch_lines and what != "stall":
+            self.watch_log.append((len(self.events), r.name, "wait", what))
         r.deadline = None if timeout is None else self.clock + max(0.0, timeout)
         nxt = self._decide(r, False, None)
         if nxt is None:
